@@ -91,7 +91,7 @@ end setThr
 macro "loop_cases" : tactic => `(tactic| (
   unfold stepLoop stepLoopFD stepLoopG
   split
-  all_goals (try simp only [testQuit, leaveLoop, enterLoop])
+  all_goals (try simp only [testQuit, leaveLoop, enterLoop, relaunch])
   all_goals (repeat' split)))
 
 
@@ -142,16 +142,19 @@ theorem inflightF_keep {thr : Nat → FThread} {k : Nat} {t : FThread} {L : Nat}
 @[simp] theorem setThr_thr_fun (s : St) (k : Nat) (t : FThread) :
     (setThr s k t).thr = fun j => if j = k then t else s.thr j := rfl
 
+/-- phases in which a queued functor must be accompanied by a wake-up (`returned`: `loop()` may be entered again, and
+what a foreign thread queued after the last test of the queue must then wake the first `poll`) -/
 def needsWake : Phase → Bool
-  | .unborn | .born | .pre | .ready | .entered | .looptest | .polling | .draining => true
+  | .unborn | .born | .pre | .ready | .entered | .looptest | .polling | .draining | .returned => true
   | _ => false
 
 def taskPhase : Phase → Bool
   | .unborn | .born | .pre | .dispatch | .draining => true
   | _ => false
 
+/-- outside `loop()`: before it is entered, or after it has returned (and before it is entered again) -/
 def beforeLoop : Phase → Bool
-  | .unborn | .born | .pre | .ready => true
+  | .unborn | .born | .pre | .ready | .returned => true
   | _ => false
 
 theorem inflightF_keep' {thr thr' : Nat → FThread} {k : Nat} {L : Nat} {p : Pc}
@@ -205,21 +208,21 @@ theorem run_invariant {P : St → Prop} (hstep : ∀ s k, P s → P (step s k)) 
 
 /-- reachable from an initial configuration under some schedule -/
 def Reachable (s : St) : Prop :=
-  ∃ elt wl tbl dtbl pre progs sched, s = run (init elt wl tbl dtbl pre progs) sched
+  ∃ elt wl tbl dtbl pre again progs sched, s = run (init elt wl tbl dtbl pre again progs) sched
 
-theorem reachable_init (elt wl : Bool) (tbl) (dtbl) (pre) (progs) : Reachable (init elt wl tbl dtbl pre progs) :=
-  ⟨elt, wl, tbl, dtbl, pre, progs, [], rfl⟩
+theorem reachable_init (elt wl : Bool) (tbl) (dtbl) (pre) (again) (progs) : Reachable (init elt wl tbl dtbl pre again progs) :=
+  ⟨elt, wl, tbl, dtbl, pre, again, progs, [], rfl⟩
 
 theorem reachable_run {s : St} (h : Reachable s) (sched : List Nat) : Reachable (run s sched) := by
-  obtain ⟨elt, wl, tbl, dtbl, pre, progs, sc, rfl⟩ := h
-  exact ⟨elt, wl, tbl, dtbl, pre, progs, sc ++ sched, (run_append _ _ _).symm⟩
+  obtain ⟨elt, wl, tbl, dtbl, pre, again, progs, sc, rfl⟩ := h
+  exact ⟨elt, wl, tbl, dtbl, pre, again, progs, sc ++ sched, (run_append _ _ _).symm⟩
 
 theorem reachable_step {s : St} (h : Reachable s) (k : Nat) : Reachable (step s k) := reachable_run h [k]
 
 /-- what holds initially and survives every step holds in every reachable state -/
-theorem reachable_invariant {P : St → Prop} (hinit : ∀ elt wl tbl dtbl pre progs, P (init elt wl tbl dtbl pre progs))
+theorem reachable_invariant {P : St → Prop} (hinit : ∀ elt wl tbl dtbl pre again progs, P (init elt wl tbl dtbl pre again progs))
     (hstep : ∀ s k, P s → P (step s k)) {s : St} (h : Reachable s) : P s := by
-  obtain ⟨elt, wl, tbl, dtbl, pre, progs, sc, rfl⟩ := h
-  exact run_invariant hstep (hinit elt wl tbl dtbl pre progs) sc
+  obtain ⟨elt, wl, tbl, dtbl, pre, again, progs, sc, rfl⟩ := h
+  exact run_invariant hstep (hinit elt wl tbl dtbl pre again progs) sc
 
 end MuduoVerif.Loop
